@@ -272,3 +272,110 @@ def index_chains(U):
     U.ensures("class data / annotations are attached iff their offsets are non-zero",
               cd.class_data_item == (("class_data", 64) if cd.class_data_off else None) and
               cd.annotations_directory_item == (("annotations", 96) if cd.annotations_off else None))
+
+
+# ------------------------------------------------------------------------------------------------
+# Loop contract (unbounded): ClassDataItem._load_elements over a member group of ARBITRARY size on a file of arbitrary length.
+# Ghost functions of the element index k, *defined by the file content* (their defining equations are instantiated at the index the
+# arbitrary iteration works on): P(k) = offset of element k, IDX(k) = sum of the index differences of elements < k, FL(k) = access
+# flags of element k, with  P(k+1) = P(k) + len(uleb@P(k)) + len(uleb@..),  IDX(k+1) = IDX(k) + uleb@P(k)  (spec: specs/leb128.py).
+# Invariant: pos = P(k), prev = IDX(k), len(l) = k, and (Skolem j < k) element j of the list carries index IDX(j+1) and flags FL(j).
+import z3  # noqa: E402
+
+from pyvc import core, ubuf  # noqa: E402
+from pyvc.loops import GhostList, LoopSpec  # noqa: E402
+from specs import leb128 as LEB  # noqa: E402
+
+
+class _Members:
+    def __init__(self, U, mem, p0):
+        self.U, self.mem = U, mem
+        mk = lambda n: z3.Function(n, z3.BitVecSort(core.W), z3.BitVecSort(core.W))
+        self.fP, self.fI, self.fF = mk("P"), mk("IDX"), mk("FL")
+        c = core.ctx()
+        zero = z3.BitVecVal(0, core.W)
+        c.add_fact(self.fP(zero) == core.SymInt.lift(p0).t)
+        c.add_fact(self.fI(zero) == 0)
+
+    def _app(self, f, k, lo, hi):
+        t = f(core.SymInt.lift(k).t)
+        core.ctx().add_fact(z3.And(t >= lo, t <= hi))
+        return core.SymInt(t, lo, hi)
+
+    def P(self, k):
+        return self._app(self.fP, k, 0, ubuf.MAXLEN + (1 << 36))
+
+    def IDX(self, k):
+        return self._app(self.fI, k, 0, 1 << 62)
+
+    def FL(self, k):
+        return self._app(self.fF, k, 0, 1 << 32)
+
+    def define_at(self, k):
+        """defining equations of P(k+1), IDX(k+1), FL(k) from the bytes at P(k)"""
+        p = self.P(k)
+        b1 = [self.mem.byte(p + i) for i in range(5)]
+        v1, n1 = LEB.uleb32(b1), LEB.leb_len(b1)
+        b2 = [self.mem.byte(p + n1 + i) for i in range(5)]
+        v2, n2 = LEB.uleb32(b2), LEB.leb_len(b2)
+        c = core.ctx()
+        c.add_fact((self.P(k + 1) == p + n1 + n2).t)
+        c.add_fact((self.IDX(k + 1) == self.IDX(k) + v1).t)
+        c.add_fact((self.FL(k) == v2).t)
+        return n1
+
+
+def _inv_members(spec, L, k):
+    w, j, l = spec.G["world"], spec.G["j"], L["l"]
+    return And(L["buff"].pos == w.P(k), L["prev"] == w.IDX(k), l.n == k,
+               Implies(And(0 <= j, j < k), And(l.obs("idx", j) == w.IDX(j + 1), l.obs("flags", j) == w.FL(j))))
+
+
+MEMBERS = LoopSpec("ClassDataItem._load_elements#0", invariant=_inv_members,
+                   havoc={"prev": lambda s, L: s.G["U"].int("prev@", 0, 1 << 62)},
+                   heap=("buff", "l"), const=("self", "Type", "cm", "size"),
+                   at_iteration=lambda s, L, k: s.G["U"].assume(s.G["world"].define_at(k) == s.G["n1"]))
+
+
+@unit("C05", covers=[(DEX, "ClassDataItem._load_elements"), (DEX, "EncodedField.__init__"), (DEX, "EncodedField.adjust_idx"),
+                     (DEX, "readuleb128")],
+      loops={(DEX, "ClassDataItem._load_elements", 0): MEMBERS}, samples=60, max_paths=4000, params=[{"n1": k} for k in (1, 2, 3, 4, 5)],
+      note="loop contract: a field group of any size in a file of any length; real EncodedField constructor and LEB128 reader "
+           "(every 1..5-byte encoding; the arbitrary iteration is split by the length n1 of the element's first LEB128, which is "
+           "1..5 by definition); the element list is a ghost list observed through index and access flags")
+def member_group_unbounded(U, n1):
+    m = U.mod(DEX)
+    cd = object.__new__(m.ClassDataItem)
+    if U.mode != "sym":
+        n = U.int("n", 0, 6)
+        diffs = [U.int("d%d" % i, 0, 70000) for i in range(n)]
+        flags = [U.int("a%d" % i, 0, 1 << 20) for i in range(n)]
+        data = b"".join(LEB.uleb_encode(d) + LEB.uleb_encode(a) for d, a in zip(diffs, flags)) + b"\x55"
+        buff, out = U.stream(data), []
+        o = U.call(cd._load_elements, n, out, m.EncodedField, buff, _CM(U.packer()))
+        U.ensures("does not raise", o.ok, exc=repr(o.exc))
+        if o.ok:
+            run, want = 0, []
+            for d in diffs:
+                run += d
+                want.append(run)
+            U.ensures("indices are the prefix sums of the differences, flags as encoded, exactly the group is consumed",
+                      [e.get_field_idx() for e in out] == want and [e.get_access_flags() for e in out] == flags and buff.tell() == len(data) - 1)
+        return
+    mem = ubuf.SymMem("file")
+    buf = ubuf.SymBuf(mem, 0, U.int("len", 0, ubuf.MAXLEN))
+    p0 = U.int("p0", 0, ubuf.MAXLEN)
+    buff = ubuf.SymStreamU(buf, p0, "buff")
+    size = U.int("size", 0, 1 << 32)
+    j = U.int("j", 0, 1 << 32)
+    world = _Members(U, mem, p0)
+    lst = GhostList("members", {"idx": (lambda e: e.get_field_idx(), 0, 1 << 62), "flags": (lambda e: e.get_access_flags(), 0, 1 << 32)})
+    MEMBERS.G = {"U": U, "world": world, "j": j, "n1": n1}
+    o = U.call(cd._load_elements, size, lst, m.EncodedField, buff, _CM(U.packer()))
+    if not o.ok:
+        U.ensures("the only failure is the end of the data (struct.error)", o.raised(m.__pyvc_struct__.error), exc=repr(o.exc))
+        return
+    U.cover("the whole group is read")
+    U.ensures("the list has exactly `size` elements and the stream stands behind the group", And(lst.n == size, buff.pos == world.P(size)))
+    U.ensures("element j carries the sum of the index differences up to and including its own, and its own access flags",
+              Implies(And(0 <= j, j < size), And(lst.obs("idx", j) == world.IDX(j + 1), lst.obs("flags", j) == world.FL(j))))
